@@ -247,6 +247,10 @@ def cases(tier, seed=0):
         out.append(PublicPerm(module=mod, perm=[1, 0], ls=[2, 1], types="sc", Ks=[1, 1], Ms=[1, 2]))
         if NIDX[mod] == 2:
             out.append(PublicSym(module=mod, **three))
+            if mod in ("overlap", "momentum", "angmom") or tier == "thorough":
+                # the all-Cartesian and all-spherical assemblies are separate code paths
+                out.append(PublicSym(module=mod, ls=[1, 0, 1], types="ccc", Ks=[1, 2, 1], Ms=[2, 1, 1]))
+                out.append(PublicSym(module=mod, ls=[1, 2], types="ss", Ks=[1, 1], Ms=[2, 1]))
     for mod in ("eri", "eri_phys"):
         out.append(PublicPerm(module=mod, perm=[1, 0], ls=[1, 0], types="sc", Ks=[1, 1], Ms=[1, 2]))
         out.append(PublicPerm(module=mod, perm=[2, 0, 1], ls=[0, 1, 0], types="ccc", Ks=[1, 1, 1], Ms=[1, 1, 2]))
